@@ -1,8 +1,24 @@
 """C05 Ed25519 / Ed448 sign and verify exactly as RFC 8032 specifies.  spec/C05"""
-import os, random, copy
+import json, os, random, copy
+from concurrent.futures import ThreadPoolExecutor
 from vlib import common as C
 
 LEVEL = "model_checking"
+
+
+def ed_job(w, i, job, module="Ed25519SignJob"):
+    d = os.path.join(w, "ed%d" % i)
+    os.makedirs(d, exist_ok=True)
+    C.stage_specs(d, "C05")
+    json.dump(job, open(os.path.join(d, "job.json"), "w"))
+    r = C.tlc(d, module, module + ".cfg", workers=1, heap="3g", timeout=3300, stack="256m")
+    vp = os.path.join(d, "verdict.json")
+    if not r.ok or not os.path.exists(vp):
+        raise C.Infra("%s failed:\n%s" % (module, r.tail(40)))
+    v = json.load(open(vp))
+    if not v["done"]:
+        raise C.Infra("%s did not reach the end:\n%s" % (module, r.tail(20)))
+    return v, r.distinct
 
 
 def run(tier, rep, replay=None):
@@ -28,6 +44,37 @@ def run(tier, rep, replay=None):
             key = "verify:%s:%s:%s" % (ln["variant"], cls, what)
             det = {k: ln[k] for k in ("variant", "class", "pub", "msg", "ctx", "sig", "facts", "accepted", "entry_points_agree", "note")}
         rep.violation(key, {"observed": det, "explain": "differs from RFC 8032 (Rfc8032Verdict.tla / the math-big transcription)"})
+    # ---- TLC recomputes Ed25519 key derivation and signatures (pure / ctx / ph) from RFC 8032 for a sample of the run
+    hx = lambda h: list(bytes.fromhex(h))
+    rnd = random.Random(C.SEED)
+    rfc = {"variant": "pure", "seed": hx("4ccd089b28ff96da9db6c346ec114e0f5b8a319f35aba624da8cf6ed4fb8a6fb"), "msg": [0x72], "ctx": [],
+           "pk": hx("3d4017c3e843895a92b70aa74d1b7ebc9c982ccf2ec4968cc0cd55f12af4660c"),
+           "sig": hx("92a009a9f0d4cab8720e820b5f642540a2b27b5416503f8fb3762223ebdb69da085ac1e43e15996e458f3613d0f11d8c387b2eaeb4302aeeb00d291612bb0c00")}
+    fals = copy.deepcopy(rfc)
+    fals["sig"][40] ^= 1
+    ejobs = [(rfc, "rfc8032-test-2"), (fals, "falsified")]
+    for variant, name in (("Ed25519", "pure"), ("Ed25519ctx", "ctx"), ("Ed25519ph", "ph")):
+        sg = [l for l in lines if l["ev"] == "sign" and l["variant"] == variant and not l["panics"]]
+        rnd.shuffle(sg)
+        for l in sg[:(3 if thorough else 1)]:
+            ejobs.append(({"variant": name, "seed": hx(l["seed"]), "msg": hx(l["msg"]), "ctx": hx(l["ctx"]), "pk": hx(l["pk"]), "sig": hx(l["sig"])}, variant + " " + l["class"]))
+    if thorough:     # Ed448 / Ed448ph: about 10 minutes per signature
+        for variant, name in (("Ed448", "pure"), ("Ed448ph", "ph")):
+            sg = [l for l in lines if l["ev"] == "sign" and l["variant"] == variant and not l["panics"]]
+            rnd.shuffle(sg)
+            for l in sg[:2]:
+                ejobs.append(({"variant": name, "seed": hx(l["seed"]), "msg": hx(l["msg"]), "ctx": hx(l["ctx"]), "pk": hx(l["pk"]), "sig": hx(l["sig"])}, variant + " " + l["class"]))
+    with ThreadPoolExecutor(min(C.NCPU, 12)) as ex:
+        eres = list(ex.map(lambda ij: ed_job(w, ij[0], ij[1][0], "Ed448SignJob" if ij[1][1].startswith("Ed448") else "Ed25519SignJob"), enumerate(ejobs)))
+    if not (eres[0][0]["pk"] and eres[0][0]["sig"]) or eres[1][0]["sig"]:
+        raise C.Infra("Ed25519SignJob does not reproduce RFC 8032 test 2 / accepts a falsified signature")
+    for (job, cls), (v, _) in list(zip(ejobs, eres))[2:]:
+        for part in ("pk", "sig"):
+            if not v[part]:
+                rep.violation("rfc8032:%s:%s" % (cls.split(" ")[0], "public-key" if part == "pk" else "signature"),
+                              {"class": cls, "seed": bytes(job["seed"]).hex(), "msg": bytes(job["msg"]).hex(), "ctx": bytes(job["ctx"]).hex(),
+                               "explain": "the library's %s is not the value TLC computes from RFC 8032 (Ed25519SignJob.tla / Ed448SignJob.tla)" % part})
+    rep.add(tlc_recomputed_ed25519=len(ejobs) - 2, tlc_recompute_states=sum(x[1] for x in eres))
     good = [i for i in range(len(lines)) if i not in set(bad)]
     gv = [i for i in good if lines[i]["ev"] == "verify" and not lines[i]["accepted"] and not lines[i]["facts"]["cofactored"]]
     gs = [i for i in good if lines[i]["ev"] == "sign"]
@@ -46,13 +93,13 @@ def run(tier, rep, replay=None):
             either=sum(1 for l in ver if l["facts"]["cofactored"] and not (l["facts"]["cofactorless"] and l["facts"]["a_prime"]) and l["facts"]["s_less"] and l["facts"]["a_canon"] and l["facts"]["r_canon"]))
     for l in [x for x in lines if x["ev"] == "sign"][:1] + ver[:2]:
         rep.sample({k: v for k, v in l.items() if k not in ("hr", "hk", "q1", "q2", "q3", "rr", "kk", "s", "sdig")})
-    rep.assumptions += ["point arithmetic and hashing on the oracle side come from a math/big transcription of RFC 8032 (harness/drivers/edref: SHA-512 from the standard library, SHAKE256 from golang.org/x/crypto); TLC decides the verdict from the recorded facts and re-derives the scalar arithmetic of every signature (BigNat)",
+    rep.assumptions += ["TLC itself recomputes Ed25519 / Ed25519ctx / Ed25519ph keys and signatures for a sample (Ed25519SignJob.tla, about 50 s each); for Ed448 and for the facts of verification, point arithmetic and hashing on the oracle side come from a math/big transcription of RFC 8032 (harness/drivers/edref: SHA-512 from the standard library, SHAKE256 from golang.org/x/crypto); TLC decides the verdict from the recorded facts and re-derives the scalar arithmetic of every signature (BigNat)",
                         "the reduction of 512-/912-bit hash values is exercised on structured inputs by the C12 in-tree recorder of sign/ed25519; here hash values are whatever the messages give",
                         "Ed25519ctx with an empty context (RFC: SHOULD NOT) is not exercised"]
 
 
 MANIFEST = {
- "text": "Rfc8032Verdict.tla states what RFC 8032 verification decides as a function of facts about the inputs (lengths, S < L, canonical encodings of A and R, A in the prime-order subgroup, cofactorless / cofactored equation): mandatory reject, mandatory accept, or the room the RFC leaves for torsion components; MC_EdVerdict checks the table exhaustively on toy cyclic groups with cofactor 8 and 4 (cofactorless implies cofactored, equivalence on the prime-order subgroup, honest signatures are accepted, S + L satisfies the same equations so only the S < L test rejects it). The driver derives keys and signs with all five variants over structured seeds, 11 message lengths and context lengths 0 / 1 / 255 and compares public key and signature bytes with a math/big transcription of RFC 8032; TLC additionally re-derives r = H_r mod L, k = H_k mod L and S = r + k s mod L for the S found in the library's signature. Verification is exercised on honest signatures, S + jL for every j that fits, S in {0, L-1, L, L+1, 2^bits, all-ones}, the 57th byte of Ed448's S, single-bit alterations of signature / key, altered message / context, 256-byte contexts, wrong and empty lengths, Ed448 junk bits in A and R (signed with the junk bytes in the challenge hash), all small-order points as A and as R, their y+p and x=0-with-sign-bit spellings, mixed-order keys, y >= p, random strings; each verdict must be consistent with the table and identical through VerifyAny / the scheme object.",
+ "text": "Ed25519SignJob.tla is RFC 8032 section 5.1 key generation and signing (pure, ctx, ph) as an executable behaviour - SHA-512 one action per round (Sha512Ops.tla), clamping, scalar multiplication on edwards25519 with the complete addition law one action per bit, inversion, encoding, reduction modulo L - with which TLC recomputes public keys and signatures of sampled (seed, message, context) triples of the run after reproducing RFC 8032 test 2 and rejecting a falsified signature; Ed448SignJob.tla is the same for section 5.2 (SHAKE256, edwards448 in projective coordinates, 57-byte encodings; about 10 minutes per signature, thorough tier only). Rfc8032Verdict.tla states what RFC 8032 verification decides as a function of facts about the inputs (lengths, S < L, canonical encodings of A and R, A in the prime-order subgroup, cofactorless / cofactored equation): mandatory reject, mandatory accept, or the room the RFC leaves for torsion components; MC_EdVerdict checks the table exhaustively on toy cyclic groups with cofactor 8 and 4 (cofactorless implies cofactored, equivalence on the prime-order subgroup, honest signatures are accepted, S + L satisfies the same equations so only the S < L test rejects it). The driver derives keys and signs with all five variants over structured seeds, 11 message lengths and context lengths 0 / 1 / 255 and compares public key and signature bytes with a math/big transcription of RFC 8032; TLC additionally re-derives r = H_r mod L, k = H_k mod L and S = r + k s mod L for the S found in the library's signature. Verification is exercised on honest signatures, S + jL for every j that fits, S in {0, L-1, L, L+1, 2^bits, all-ones}, the 57th byte of Ed448's S, single-bit alterations of signature / key, altered message / context, 256-byte contexts, wrong and empty lengths, Ed448 junk bits in A and R (signed with the junk bytes in the challenge hash), all small-order points as A and as R, their y+p and x=0-with-sign-bit spellings, mixed-order keys, y >= p, random strings; each verdict must be consistent with the table and identical through VerifyAny / the scheme object.",
  "note": "Seeds and messages are structured plus seeded random (2 repetitions per variant quick, 12 thorough).",
- "technique": "TLC exhaustive check of the decision table on toy groups + TLC judgement of recorded sign/verify calls (RFC 8032 decision table, BigNat re-derivation of S) + differential against a math/big transcription of RFC 8032",
+ "technique": "executable RFC 8032 Ed25519 signing in TLA+ recomputing sampled outputs + TLC exhaustive check of the decision table on toy groups + TLC judgement of recorded sign/verify calls (RFC 8032 decision table, BigNat re-derivation of S) + differential against a math/big transcription of RFC 8032",
 }
